@@ -320,8 +320,8 @@ func runC02(c *core.Ctx) {
 			}
 		})
 	}
-	c.Floor("R02.1", "mutators reachable in the patching phase", nPre, 4)
-	c.Floor("R02.1", "output-folder mutators under Commit", nOut, 8)
+	c.Floor("R02.1", "mutators reachable in the patching phase", nPre, 2)
+	c.Floor("R02.1", "output-folder mutators under Commit", nOut, 3)
 	// stagePool assigned only from fspool.New(_, StageFolder)
 	nSP := 0
 	for _, fn := range fns {
@@ -360,18 +360,7 @@ func runC02(c *core.Ctx) {
 			continue
 		}
 		ac := a.(*ssa.Call)
-		skipNil := func(bb, s *ssa.BasicBlock) bool {
-			ifi, ok := bb.Instrs[len(bb.Instrs)-1].(*ssa.If)
-			if !ok {
-				return false
-			}
-			bo, ok := ifi.Cond.(*ssa.BinOp)
-			if !ok || !core.IsNilConst(bo.Y) || !loadsStoredResult(bo.X, ac) {
-				return false
-			}
-			return (bo.Op == token.EQL && s == bb.Succs[0]) || (bo.Op == token.NEQ && s == bb.Succs[1])
-		}
-		ok := core.InstrDominates(a, b) && core.FindPathSkipping(commit, a, isInstr(b), nil, skipNil) == nil
+		ok := core.InstrDominates(a, b) && ungatedPath(commit, ac, b, nil) == nil
 		c.Check(ok, "R02.2", core.FnName(commit), pr[0]+" completes successfully before "+pr[1], core.InstrPos(b),
 			"dominates, and the later phase is reachable only through the earlier one's nil result", pr[1]+" can run before (or although) "+pr[0]+" has not completed successfully")
 	}
